@@ -4,6 +4,7 @@ import (
 	"fmt"
 	"go/token"
 	"go/types"
+	"regexp/syntax"
 	"sort"
 	"strings"
 
@@ -50,7 +51,7 @@ func foldCaseTests(fn *ssa.Function) []*ssa.BinOp {
 func init() {
 	core.Register(&core.Rule{
 		Name: "R-FOLD",
-		Doc: "Case folding: (1) every function that tests Flags&syntax.FoldCase on a syntax tree node and then consumes the node's runes must reach unicode.SimpleFold (directly or through module callees), unless it is a bool-valued detector or declines (its FoldCase branch returns at once): folding only ASCII letters, or only upper/lower, misses orbit members such as k/K/U+212A and is wrong for every non-ASCII letter; (2) in every fold-orbit helper (a function with a rune parameter that calls unicode.SimpleFold on it) the SimpleFold call dominates every return, i.e. no shortcut path computes the orbit without it; (3) the loop that walks the orbit exits only on the comparison with the start rune (no length cap). Necessary for C15 (simple case folding orbits) and C17 (case-fold literal variants are necessary literals).",
+		Doc: "Case folding: (1) every function that tests Flags&syntax.FoldCase on a syntax tree node and then consumes the node's runes must reach unicode.SimpleFold (directly or through module callees), unless it is a bool-valued detector or declines (its FoldCase branch returns at once): folding only ASCII letters, or only upper/lower, misses orbit members such as k/K/U+212A and is wrong for every non-ASCII letter; (2) in every fold-orbit helper (a function with a rune parameter that calls unicode.SimpleFold on it) the SimpleFold call dominates every return, i.e. no shortcut path computes the orbit without it; (3) the loop that walks the orbit exits only on the comparison with the start rune (no length cap); (4) in package literal every read of the runes of a node known to be an OpLiteral is dominated by a test of that node's FoldCase flag. Necessary for C15 (simple case folding orbits) and C17 (case-fold literal variants are necessary literals).",
 		Min: 6, NeedSSA: true,
 		Run: func(p *core.Prog) *core.RuleResult {
 			res := &core.RuleResult{}
@@ -180,6 +181,104 @@ func init() {
 							}
 						}
 						res.Obligations = append(res.Obligations, o3)
+					}
+				}
+			}
+			// (4) literal readers: a read of N.Rune under N.Op == OpLiteral needs a dominating test of N.Flags&FoldCase
+			kc := core.NewKeyCounter()
+			nLit := 0
+			for _, fn := range p.SrcFuncs() {
+				if strings.HasSuffix(p.File(fn.Pos()), "_test.go") {
+					continue
+				}
+				pk := ownPkg(fn)
+				if pk == nil || !strings.HasSuffix(pk.Path(), "/literal") {
+					continue
+				}
+				fieldOf := func(v ssa.Value, name string) (ssa.Value, bool) {
+					u, ok := v.(*ssa.UnOp)
+					if !ok || u.Op != token.MUL {
+						return nil, false
+					}
+					fa, ok := u.X.(*ssa.FieldAddr)
+					if !ok || !isSyntaxRegexpPtr(fa.X.Type()) || fieldNameOf(fa) != name {
+						return nil, false
+					}
+					return fa.X, true
+				}
+				// dominating tests per node
+				type test struct {
+					node ssa.Value
+					blk  *ssa.BasicBlock // block whose dominance proves the test
+				}
+				var litTests, foldTests []test
+				for _, b := range fn.Blocks {
+					if len(b.Instrs) == 0 {
+						continue
+					}
+					iff, ok := b.Instrs[len(b.Instrs)-1].(*ssa.If)
+					if !ok {
+						continue
+					}
+					bo, ok := iff.Cond.(*ssa.BinOp)
+					if !ok || (bo.Op != token.EQL && bo.Op != token.NEQ) {
+						continue
+					}
+					for _, pair := range [][2]ssa.Value{{bo.X, bo.Y}, {bo.Y, bo.X}} {
+						if n, ok := fieldOf(pair[0], "Op"); ok {
+							if c, ok := constInt(pair[1]); ok && c == int64(syntax.OpLiteral) {
+								if bo.Op == token.EQL {
+									litTests = append(litTests, test{n, b.Succs[0]})
+								} else {
+									litTests = append(litTests, test{n, b.Succs[1]})
+								}
+							}
+						}
+						// (N.Flags & FoldCase) != 0
+						if and, ok := pair[0].(*ssa.BinOp); ok && and.Op == token.AND {
+							if c, ok := constInt(and.Y); ok && c == int64(syntax.FoldCase) {
+								if n, ok := fieldOf(and.X, "Flags"); ok {
+									foldTests = append(foldTests, test{n, b})
+								}
+							}
+						}
+					}
+				}
+				for _, b := range fn.Blocks {
+					for _, in := range b.Instrs {
+						u, ok := in.(*ssa.UnOp)
+						if !ok {
+							continue
+						}
+						n, ok := fieldOf(u, "Rune")
+						if !ok {
+							continue
+						}
+						isLit := false
+						for _, t := range litTests {
+							if sameExpr(t.node, n, 0) && len(t.blk.Preds) == 1 && (t.blk == b || t.blk.Dominates(b)) {
+								isLit = true
+							}
+						}
+						if !isLit {
+							continue
+						}
+						nLit++
+						o := core.Obligation{Key: kc.Key("R-FOLD", core.FuncName(fn), "literal runes read under a FoldCase test"), Pos: p.Pos(u.Pos()), Nontrivial: true}
+						ok2 := false
+						for _, t := range foldTests {
+							if sameExpr(t.node, n, 0) && (t.blk == b || t.blk.Dominates(b)) {
+								ok2 = true
+							}
+						}
+						if ok2 {
+							o.Status = core.Discharged
+							o.Detail = "the read is dominated by a test of the node's FoldCase flag"
+						} else {
+							o.Status = core.Violated
+							o.Detail = "the runes of an OpLiteral node are turned into literal bytes without looking at the node's FoldCase flag: for (?i:foo) the parser stores one spelling (FOO), so the extracted literal is required verbatim and every other spelling of a real match is rejected"
+						}
+						res.Obligations = append(res.Obligations, o)
 					}
 				}
 			}
